@@ -101,7 +101,9 @@ def run_case(case, monitors=(), max_restarts=0, setup=None, lifecycle=None):
         from .core import Seams
         Seams.hash_salt = derive_seed(case.seed, 'salt') & 0xffffffff
         h = Harness(sim, prog.render(), plan, world,
-                    gtext=global_text(**case.gkw), opts=case.opts)
+                    gtext=global_text(**case.gkw), opts=case.opts,
+                    extra_files=getattr(case, 'extra_files', None),
+                    epoch=getattr(case, 'epoch', None))
         res.harness = h
         for m in monitors:
             m.attach(h, res, case)
